@@ -97,6 +97,68 @@ def check_final(pio, pos, n, mode, reps=1):
     return None
 
 
+def caller_scenario(base, nimg, par, chooser, rng):
+    """`nimg` FITS pieces of one mosaic that fits into the single level-0 tile, tiled by the real
+    MultiTanProcessor serially (reference) and with `par` simulated workers; returns (verdict, sim)"""
+    from . import c09
+    import toasty.par_util
+    toasty.par_util.SHOW_INFORMATIONAL_MESSAGES = False
+    from toasty import collection, multi_tan
+    from toasty.builder import Builder
+    from toasty.pyramid import PyramidIO, Pos
+    os.makedirs(base, exist_ok=True)
+    w, hgt = 60, 48
+    paths = []
+    for i in range(nimg):
+        data = np.full((hgt, w), float(i + 1), dtype=np.float32) + np.arange(w, dtype=np.float32)[None, :] / 1000.0
+        pth = os.path.join(base, f"in{i}.fits")
+        c09.write_fits(pth, data, 1 - i * w, 1, 1.0 / 3600, bottom_up=bool(i % 2))
+        paths.append(pth)
+
+    def build(out_dir, tracing, state):
+        with warnings.catch_warnings():
+            warnings.simplefilter("ignore")
+            coll = collection.SimpleFitsCollection(paths)
+            proc = multi_tan.MultiTanProcessor(coll)
+            pio = make_tracing_pio(out_dir, "npy", state) if tracing else PyramidIO(out_dir, default_format="npy")
+            proc.compute_global_pixelization(Builder(pio))
+        return proc, pio
+    state = {"partial": {}, "partial_reads": 0}
+    with warnings.catch_warnings():
+        warnings.simplefilter("ignore")
+        proc_s, pio_s = build(os.path.join(base, "serial"), False, state)
+        proc_s.tile(pio_s, parallel=1)
+        ref = pio_s.read_image(Pos(0, 0, 0))
+        proc_p, pio_p = build(os.path.join(base, "par"), True, state)
+
+        def job():
+            with warnings.catch_warnings():
+                warnings.simplefilter("ignore")
+                proc_p._tile_parallel(pio_p, False, par)
+        sim = simmp.simulate(job, chooser, max_steps=6000, hang_window=300)
+    bad = None
+    if sim.outcome != "ok":
+        bad = f"did not complete ({sim.outcome}{': ' + repr(sim.main.exc) if sim.main.exc else ''})"
+    elif ref is None:
+        bad = "the serial reference wrote no tile"
+    else:
+        with warnings.catch_warnings():
+            warnings.simplefilter("ignore")
+            got = PyramidIO(os.path.join(base, "par"), default_format="npy").read_image(Pos(0, 0, 0))
+        if got is None:
+            bad = "no tile (0,0,0) after the parallel run"
+        else:
+            a, b = got.asarray(), ref.asarray()
+            diff = ~((a == b) | (np.isnan(a) & np.isnan(b)))
+            if diff.any():
+                lost = sorted(set(int(v) for v in b[diff & ~np.isnan(b)].astype(int)))
+                bad = f"{int(diff.sum())} pixels of tile (0,0,0) differ from the serial result (contributions of image(s) {lost} lost or altered)"
+            elif state["partial_reads"]:
+                bad = f"{state['partial_reads']} read(s) observed a partially written tile"
+    shutil.rmtree(base, ignore_errors=True)
+    return bad, sim
+
+
 def _stress_target(base, nproc, nupd):
     if True:
         from toasty.pyramid import PyramidIO, Pos
@@ -194,6 +256,26 @@ def main():
                 break
         h.case(("exhaustive", nruns), n=nruns)
         h.count("exhaustive_runs", nruns)
+        # a caller of the interface under contention: the real parallel multi-TAN tiler, several images landing in ONE
+        # tile, its workers interleaved at every lock / read / write / queue step; the final tile must be the serial one
+        try:
+            n_call = 40 if h.deep else 14
+            for ci in range(n_call):
+                nimg = rng.choice([2, 3])
+                par = rng.choice([2, 3])
+                if ci % 2 == 0:
+                    chooser, cname = simmp.PCTChooser(rng.randrange(2 ** 31), depth=rng.choice([2, 3, 4])), "pct"
+                else:
+                    chooser, cname = simmp.RandomChooser(rng.randrange(2 ** 31), timeout_weight=0.1), "random"
+                bad, sim = caller_scenario(os.path.join(root, f"call{ci}"), nimg, par, chooser, rng)
+                h.case(("caller", nimg, par, tuple(sim.choices[:200])))
+                h.count("caller", f"multi_tan:{nimg}img:{par}w:{cname}")
+                if bad:
+                    h.violation("caller:multi_tan", f"parallel multi-TAN tiling of {nimg} images into one tile with {par} workers under a {cname} schedule: {bad}",
+                                input={"images": nimg, "workers": par, "choices": sim.choices[:400], "trace": sim.trace[:120]}, observed=bad)
+        except Exception:
+            import traceback
+            h.corr_fail("caller-run", {"error": traceback.format_exc()[-1500:]})
         # real processes
         from .common import run_isolated
         base = os.path.join(root, "stress")
